@@ -95,6 +95,21 @@ class _Canon(ast.NodeTransformer):
                 if len(keep) != len(n.keywords):
                     self.stats['canon_format_unused_kw'] = self.stats.get('canon_format_unused_kw', 0) + 1
                     n.keywords = keep
+        # 'SEP'.join([a, b, c])  ->  a + 'SEP' + b + 'SEP' + c      (a literal list of pieces written as one text)
+        if isinstance(n.func, ast.Attribute) and n.func.attr == 'join' and isinstance(n.func.value, ast.Constant) and isinstance(n.func.value.value, str) \
+                and len(n.args) == 1 and not n.keywords and isinstance(n.args[0], (ast.List, ast.Tuple)) and 1 <= len(n.args[0].elts) <= 40 \
+                and not any(isinstance(x_, ast.Starred) for x_ in n.args[0].elts):
+            sep = n.func.value.value
+            out = None
+            for x_ in n.args[0].elts:
+                if out is None:
+                    out = x_
+                else:
+                    if sep:
+                        out = ast.copy_location(ast.BinOp(left=out, op=ast.Add(), right=ast.Constant(value=sep)), n)
+                    out = ast.copy_location(ast.BinOp(left=out, op=ast.Add(), right=x_), n)
+            self.stats['canon_join_literal'] = self.stats.get('canon_join_literal', 0) + 1
+            return ast.copy_location(out, n)
         # (lambda a, b: E)(x, y)  ->  E[a := x, b := y]   for pure arguments
         if isinstance(n.func, ast.Lambda) and not n.keywords and not n.func.args.defaults and not n.func.args.vararg and not n.func.args.kwarg \
                 and not n.func.args.kwonlyargs and len(n.func.args.args) == len(n.args) and all(is_pure(a) and not isinstance(a, ast.Starred) for a in n.args):
@@ -560,6 +575,25 @@ class _Subst(ast.NodeTransformer):
         return n
 
 
+def _may_raise(e):
+    """can evaluating this (pure) expression raise?  anything beyond names, constants and displays of them can"""
+    for x in ast.walk(e):
+        if isinstance(x, (ast.Attribute, ast.Subscript, ast.Call, ast.BinOp, ast.UnaryOp, ast.Compare, ast.JoinedStr, ast.IfExp, ast.BoolOp)):
+            if isinstance(x, ast.UnaryOp) and isinstance(x.op, ast.Not):
+                continue
+            return True
+    return False
+
+
+def _in_try_body(fn, stmt):
+    for t in ast.walk(fn):
+        if isinstance(t, ast.Try) and t.handlers:
+            for b in t.body:
+                if any(x is stmt for x in ast.walk(b)):
+                    return True
+    return False
+
+
 def _replace_stmt(fn, old, new):
     for owner in ast.walk(fn):
         for field in ('body', 'orelse', 'finalbody'):
@@ -746,7 +780,12 @@ def copy_propagate(fn, modsum, stats):
             if any((nd.id, t) in used for t in tnames) or any(t in bad for t in tnames):
                 continue
             done.add(id(stmt))
-            if _replace_stmt(fn, stmt, None):
+            keep = None
+            if _may_raise(stmt.value) and _in_try_body(fn, stmt):
+                # inside a try the evaluation itself is observable (`res = obj.closed` probes for AttributeError): the
+                # binding goes, the evaluation stays
+                keep = ast.copy_location(ast.Expr(value=stmt.value), stmt)
+            if _replace_stmt(fn, stmt, keep):
                 stats['copyprop_dead_defs'] = stats.get('copyprop_dead_defs', 0) + 1
         ast.fix_missing_locations(fn)
 
@@ -813,8 +852,46 @@ def _convert_returns(stmts, resvar):
                           orelse=_convert_returns(list(s.orelse), resvar), finalbody=[])
             out.append(ast.copy_location(new, s))
             return out
+        if isinstance(s, (ast.While, ast.For)) and not s.orelse:
+            # returns from inside one loop level:  `return e`  ->  `res = e; break`, and what follows the loop runs only when
+            # the loop ends without such a break - the loop's else clause
+            out.append(ast.copy_location(_loop_with_returns(s, resvar, _convert_returns(clone(stmts[i + 1:]), resvar)), s))
+            return out
         raise _NotInlinable('return inside %s' % type(s).__name__)
     return out
+
+
+def _loop_with_returns(loop, resvar, orelse):
+    def conv(stmts):
+        res = []
+        for st in stmts:
+            if isinstance(st, ast.Return):
+                v = st.value if st.value is not None else ast.Constant(value=None)
+                res.append(ast.copy_location(ast.Assign(targets=[ast.Name(id=resvar, ctx=ast.Store())], value=v), st))
+                res.append(ast.copy_location(ast.Break(), st))
+                return res
+            if isinstance(st, (ast.Break,)):
+                raise _NotInlinable('break and return in one loop')
+            if isinstance(st, (ast.While, ast.For, ast.FunctionDef, ast.With)):
+                if _has([st], ast.Return):
+                    raise _NotInlinable('return inside a nested %s' % type(st).__name__)
+                res.append(st)
+                continue
+            if isinstance(st, ast.If):
+                st = ast.copy_location(ast.If(test=st.test, body=conv(st.body) or [ast.Pass()], orelse=conv(st.orelse)), st)
+            elif isinstance(st, ast.Try):
+                if st.finalbody and _has(st.finalbody, ast.Return):
+                    raise _NotInlinable('return in finally')
+                st = ast.copy_location(ast.Try(body=conv(st.body) or [ast.Pass()],
+                                               handlers=[ast.copy_location(ast.ExceptHandler(type=h.type, name=h.name, body=conv(h.body) or [ast.Pass()]), h)
+                                                         for h in st.handlers],
+                                               orelse=conv(st.orelse), finalbody=st.finalbody), st)
+            res.append(st)
+        return res
+    new = clone(loop)
+    new.body = conv(new.body)
+    new.orelse = orelse
+    return new
 
 
 class _Rename(ast.NodeTransformer):
@@ -849,8 +926,9 @@ class _ReplaceNode(ast.NodeTransformer):
 def _bind(helper, call, is_method):
     """[(param, arg expr)] or None"""
     params = [a.arg for a in helper.args.args]
-    if helper.args.kwarg or helper.args.kwonlyargs or helper.args.posonlyargs:
+    if helper.args.kwonlyargs or helper.args.posonlyargs:
         return None
+    kwarg = helper.args.kwarg.arg if helper.args.kwarg else None
     vararg = helper.args.vararg.arg if helper.args.vararg else None
     if any(isinstance(a, ast.Starred) for a in call.args) or any(k.arg is None for k in call.keywords):
         return None
@@ -871,7 +949,11 @@ def _bind(helper, call, is_method):
         extra = list(call.args[len(params):])
     for p, a in zip(params, call.args):
         bound[p] = a
+    kw_extra = []
     for k in call.keywords:
+        if k.arg not in params and kwarg is not None and k.arg not in bound:
+            kw_extra.append(k)        # collected by **kwarg: a dict display in call order
+            continue
         if k.arg not in params or k.arg in bound:
             return None
         bound[k.arg] = k.value
@@ -886,6 +968,8 @@ def _bind(helper, call, is_method):
     if vararg is not None:
         t = ast.Tuple(elts=extra, ctx=ast.Load())
         out.append((vararg, t))
+    if kwarg is not None:
+        out.append((kwarg, ast.Dict(keys=[ast.Constant(value=k.arg) for k in kw_extra], values=[k.value for k in kw_extra])))
     return out
 
 
@@ -900,6 +984,8 @@ def _locals_of(helper):
         names.add(a.arg)
     if helper.args.vararg:
         names.add(helper.args.vararg.arg)
+    if helper.args.kwarg:
+        names.add(helper.args.kwarg.arg)
     return names
 
 
@@ -2173,6 +2259,42 @@ def resolve_function_table(tree, fn, stats):
     ast.fix_missing_locations(fn)
 
 
+def inline_joined_lists(fn, stats):
+    """pieces = [a, b, c]; w(SEP.join(pieces))   ->   w(SEP.join([a, b, c]))   when `pieces` is bound once, read once, and the read is
+    in the very next statement (the pieces are evaluated at the same point); N1 then spells the join as a concatenation"""
+    loads, stores = {}, {}
+    for x in ast.walk(fn):
+        if isinstance(x, ast.Name):
+            (stores if isinstance(x.ctx, (ast.Store, ast.Del)) else loads).setdefault(x.id, []).append(x)
+    done = 0
+    for owner in ast.walk(fn):
+        for field in ('body', 'orelse', 'finalbody'):
+            blk = getattr(owner, field, None)
+            if not isinstance(blk, list) or len(blk) < 2 or not isinstance(blk[0], ast.stmt):
+                continue
+            i = 0
+            while i + 1 < len(blk):
+                a, b = blk[i], blk[i + 1]
+                i += 1
+                if not (isinstance(a, ast.Assign) and len(a.targets) == 1 and isinstance(a.targets[0], ast.Name) and isinstance(a.value, (ast.List, ast.Tuple))):
+                    continue
+                nm = a.targets[0].id
+                if len(stores.get(nm, ())) != 1 or len(loads.get(nm, ())) != 1:
+                    continue
+                use = loads[nm][0]
+                joins = [c for c in ast.walk(b) if isinstance(c, ast.Call) and isinstance(c.func, ast.Attribute) and c.func.attr == 'join'
+                         and isinstance(c.func.value, ast.Constant) and len(c.args) == 1 and c.args[0] is use]
+                if len(joins) != 1 or isinstance(b, (ast.For, ast.While, ast.If, ast.Try, ast.With, ast.FunctionDef)):
+                    continue
+                joins[0].args[0] = a.value
+                del blk[i - 1]
+                i -= 1
+                done += 1
+    if done:
+        stats['joined_lists_inlined'] = stats.get('joined_lists_inlined', 0) + done
+        ast.fix_missing_locations(fn)
+
+
 def eliminate_holders(tree, fn, new_classes, stats):
     """N12: a local object of a small holder class introduced by a refactoring (only an __init__ of plain assignments,
     not in the reference list) that never leaves the function - every use is `v.attr` - is replaced by one local per
@@ -2453,7 +2575,9 @@ def _used_elsewhere(pkg_dir, modname, name):
                     except OSError:
                         pass
         _TEXT_CACHE[key] = texts
-    return any(name in t for m, t in _TEXT_CACHE[key].items() if m != modname)
+    # (another module can only reach the helper if it names this module: an import, a base class)
+    short = modname.split('.')[-1]
+    return any(name in t and short in t for m, t in _TEXT_CACHE[key].items() if m != modname)
 
 
 def normalize_module(modname, tree, stats, pkg_dir=None):
@@ -2653,6 +2777,7 @@ def _normalize_pass(modname, tree, stats, pkg_dir):
             expand_tables(tree, cls, f, stats)
             unguard_continue(f, stats)
             unroll_constant_loops(f, stats)
+            inline_joined_lists(f, stats)
             _Canon(stats).visit(f)
             scalarise_tuple_results(f, stats)
             forward_temps(f, stats)
